@@ -124,6 +124,7 @@ class Printer:
         self.tmp = 0
         self.src_cache = {}
         self.default_file = None
+        self.byref_captures = set()     # decl ids of non-reference variables a lambda captures by reference
 
     # ------------------------------------------------------------------ types
     def ctype_q(self, q):
@@ -394,7 +395,7 @@ class Printer:
             if rd.get('kind') in ('FunctionDecl', 'CXXMethodDecl'):
                 raise Unsupported(f'function reference {rd.get("name")} outside a call')
             ty = rd.get('type', {}).get('qualType', '').rstrip()
-            if ty.endswith('&'):
+            if ty.endswith('&') or rd.get('id') in self.byref_captures:
                 return f'(*{rd["name"]})'
             return rd['name']
         if k == 'CXXThisExpr':
@@ -821,8 +822,8 @@ class Printer:
         ps = []
         if self.self_struct:
             ps.append(f'{self.self_struct}* self')
-        for q in params:
-            ps.append(f'{self.ctype(q["type"])} {q.get("name", "nv_unnamed")}')
+        for k, q in enumerate(params):
+            ps.append(f'{self.ctype(q["type"])} {q.get("name", f"nv_unnamed{k}")}')
         ps += list(extra_params)
         text = self.stmt(body, 0)
         inits = [c for c in d['inner'] if c.get('kind') == 'CXXCtorInitializer']
